@@ -147,14 +147,23 @@ def forbidden_scan(vfiles=None):
 
 
 def run_translators():
-    """Regenerate coq/theories/Gen/*.v from /repo (tools/gotocoq). Returns (ok, log)."""
+    """Regenerate coq/theories/Gen/*.v from /repo: every sub-directory of tools/gotocoq with a main.go is a
+    translator.  Returns (ok, log)."""
     tool = os.path.join(ROOT, 'tools', 'gotocoq')
+    gen = os.path.join(THEORIES, 'Gen')
+    os.makedirs(gen, exist_ok=True)
+    ok, logs = True, []
     if not os.path.isdir(tool):
         return True, ''
-    os.makedirs(os.path.join(THEORIES, 'Gen'), exist_ok=True)
-    rc, out = sh('go run . -repo %s -out %s' % (REPO, os.path.join(THEORIES, 'Gen')), cwd=tool, timeout=600,
-                 env={'GOFLAGS': '-mod=mod'})
-    return rc == 0, out
+    for sub in sorted(os.listdir(tool)):
+        if not os.path.exists(os.path.join(tool, sub, 'main.go')):
+            continue
+        rc, out = sh('go run ./%s -repo %s -out %s' % (sub, REPO, gen), cwd=tool, timeout=900,
+                     env={'GOFLAGS': '-mod=mod', 'GOWORK': 'off'})
+        if rc != 0:
+            ok = False
+            logs.append('[translator %s failed]\n%s' % (sub, out[-3000:]))
+    return ok, '\n'.join(logs)
 
 
 def coq_build(targets=None, jobs=16, timeout=3000):
